@@ -8,16 +8,7 @@ open SR SR.Actor SR.Actor.Codec
 
 def bits (l : List Bool) : SExp := SExp.list (l.map fun b => SExp.atom (if b then "1" else "0"))
 
-/-- declarative effect of a crash (C09_effect) -/
-def crashSt (i : Nat) (st : USt) : USt :=
-  { st with crashed := st.crashed.set i true, timers := st.timers.set i [], random := st.random.set i [] }
-
-def actorOfAction : Action → Option Nat
-  | .deliver e => some e.dst
-  | .timeout i _ => some i
-  | .selectRandom i _ _ => some i
-  | .crash i => some i
-  | .drop _ => none
+def crashSt (i : Nat) (st : USt) : USt := crashOf i st
 
 structure Tr where
   a : Action
